@@ -55,9 +55,9 @@ ASSUMPTIONS = [
 ]
 UNPROVED = [
     "einsum_single_den (DESIGN MVP): not modelled; einsum is differential only",
-    "value theorems of _dot_csr_ndarray(_sparse), _dot_csc_ndarray(_sparse), _dot_coo_ndarray(_sparse), "
-    "_dot_ndarray_coo(_sparse) (DESIGN extension): only termination of _dot_coo_ndarray is proved; values by correspondence "
-    "with the Spec inside Coq",
+    "value theorems of _dot_csr_ndarray(_sparse), _dot_csc_ndarray(_sparse), _dot_coo_ndarray_sparse, "
+    "_dot_ndarray_coo(_sparse) (DESIGN extension): only _dot_coo_ndarray (termination and values) is proved; the others by "
+    "correspondence with the Spec inside Coq",
     "csc_ndarray_*_partial: no positive theorem for _dot_csc_ndarray_sparse (only the two refutations)",
     "prune_den (GCXS(..., prune=True) keeps the dense meaning) and csr_den = gden bridge: correspondence only",
     "matmul batch broadcasting, kron_den, multi-operand einsum (DESIGN extension)",
@@ -119,10 +119,36 @@ def _axes(ax):
     return ax
 
 
+_CALLS = []
+_FACTORIES = ("_dot_csr_csr_type", "_dot_csr_ndarray_type", "_dot_csr_ndarray_type_sparse", "_dot_csc_ndarray_type",
+              "_dot_csc_ndarray_type_sparse", "_dot_coo_coo_type", "_dot_coo_ndarray_type", "_dot_coo_ndarray_type_sparse",
+              "_dot_ndarray_coo_type", "_dot_ndarray_coo_type_sparse")
+
+
+def _record_kernels():
+    """observe which kernel factories _dot calls (the module attributes are looked up at call time); the wrappers
+    only record the name and pass everything through"""
+    from sparse.numba_backend import _common as C
+    if getattr(C, "_c04_recording", False):
+        return
+    for name in _FACTORIES:
+        orig = getattr(C, name)
+
+        def mk(orig, name):
+            def w(*a):
+                _CALLS.append(name)
+                return orig(*a)
+            return w
+        setattr(C, name, mk(orig, name))
+    C._c04_recording = True
+
+
 def impl_api(case):
     """one API-level call and NumPy's answer on the densified operands"""
     import sparse
     np = _np()
+    _record_kernels()
+    del _CALLS[:]
     op = case["op"]
     da = _dense(case["a"], case.get("dta", "int64"))
     db = _dense(case["b"], case.get("dtb", "int64")) if case.get("b") is not None else None
@@ -174,6 +200,7 @@ def impl_api(case):
     except Exception as ex:  # noqa: BLE001
         r = ex
     out["r"] = vlib.plain(r)
+    out["kernels"] = list(_CALLS)
     out["follow"] = []
     # downstream use of a 2-d sparse result: column slices (D8: unsorted rows make them wrong)
     if isinstance(r, sparse.GCXS) and r.ndim == 2 and isinstance(e, np.ndarray) and e.shape == r.shape \
@@ -729,7 +756,7 @@ def classify_api(case, code, r):
         if "csr" in (ka, kb) or "csc" in (ka, kb):
             if op in ("einsum", "vecdot", "outer"):
                 return "value", CL_SCIPY
-        if route_csc_nd_sparse(case):
+        if route_csc_nd_sparse(case, r):
             return "value", CL_CSCCOUNT     # the uninitialised tail holds arbitrary indices: constructors reject them
         return "value", None
     if code == 13:
@@ -740,13 +767,13 @@ def classify_api(case, code, r):
         return "value", None
     if code == 15:
         g = r.get("r", {})
-        if g.get("k") == "gcxs" and route_csc_nd_sparse(case):
-            return "canonical_form", CL_CSCND
+        if g.get("k") == "gcxs" and route_csc_nd_sparse(case, r):
+            return "canonical_form", CL_CSCND if _rows_in_range(g) else CL_CSCCOUNT
         return "canonical_form", None      # (D8, csr @ csr, was repaired: a recurrence is new)
     if code == 16:
         return "canonical_form", CL_EINSUM_ZEROS if op == "einsum" else None
     if code == 20:
-        if route_csc_nd_sparse(case):
+        if route_csc_nd_sparse(case, r):
             return "value", CL_CSCCOUNT
         return "value", None
     if code == 22:
@@ -766,9 +793,12 @@ def contracted_extent_zero(case):
     return 0 in dims
 
 
-def route_csc_nd_sparse(case):
-    """2-d GCXS(compressed axis 1) @ ndarray, or ndarray @ GCXS(compressed axis 0), with a sparse result requested:
-    _dot runs _dot_csc_ndarray_type_sparse"""
+def route_csc_nd_sparse(case, r=None):
+    """_dot ran _dot_csc_ndarray_type_sparse (GCXS with compressed axis 1 times ndarray, or ndarray times GCXS with
+    compressed axis 0, sparse result requested).  Decided from the kernel factories the call was observed to use;
+    for a killed worker (no record) from the operand kinds of a 2-d product."""
+    if isinstance(r, dict) and "kernels" in r:
+        return "_dot_csc_ndarray_type_sparse" in r["kernels"]
     ka, kb = case["kin"]
     if case.get("rt") not in ("coo", "gcxs") or case["b"] is None:
         return False
@@ -846,6 +876,8 @@ def campaign(build, tier, seed, report, budget=1):
     for i, (c, r) in enumerate(zip(ac, ares, strict=True)):
         tag("api/" + c["tag"])
         tag("kinds/%s.%s" % c["kin"])
+        for kn in (r.get("kernels") or []) if isinstance(r, dict) else []:
+            tag("reached/" + kn)
         if c.get("rt"):
             tag("rt/" + c["rt"])
         if 0 in c["a"]["shape"] or (c["b"] is not None and 0 in c["b"]["shape"]):
@@ -896,8 +928,8 @@ def campaign(build, tier, seed, report, budget=1):
         c, r = ac[i], ares[i]
         # a column slice of the product differs from NumPy's: wrong VALUES downstream of unsorted rows
         clause = None
-        if bad_main.get(i) == 15 or not _rows_sorted(r.get("r", {})):
-            clause = None if "nd" not in c["kin"] else CL_CSCND
+        if route_csc_nd_sparse(c, r):
+            clause = CL_CSCND if (_rows_in_range(r.get("r", {})) and bad_main.get(i) in (None, 15)) else CL_CSCCOUNT
         tag("verdict/slice_of_product_wrong" + ("/" + clause if clause else ""))
         viol.append({"property": "C04", "op": c["op"] + "_then_slice", "kind": "value", "clause": clause, "code": code,
                      "what": f"(a {c['op']} b)[:, {f['lo']}:{f['hi']}] differs from NumPy's", "kinds": list(c["kin"]),
@@ -945,15 +977,14 @@ def campaign(build, tier, seed, report, budget=1):
     return viol
 
 
-def _rows_sorted(g):
-    if g.get("k") != "gcxs" or not g.get("indptr"):
+def _rows_in_range(g):
+    """no index of a GCXS result lies outside its (2-d) shape: the buffers hold no uninitialised tail"""
+    if g.get("k") != "gcxs" or len(g.get("shape", [])) != 2:
         return True
-    ip, ix = g["indptr"], g["indices"]
-    for a, b in zip(ip, ip[1:], strict=False):
-        row = ix[a:b]
-        if any(x >= y for x, y in zip(row, row[1:], strict=False)):
-            return False
-    return True
+    ca = (g.get("caxes") or [0])[0]
+    lim = g["shape"][1 - ca]
+    ip = g.get("indptr") or [0]
+    return all(0 <= x < lim for x in g["indices"]) and ip[-1] == len(g["data"]) and len(g["indices"]) == len(g["data"])
 
 
 def _np_ref(case):
